@@ -15,7 +15,7 @@ import (
 )
 
 type autoEdge struct {
-	to   string // "R<n>" or "return:nil" / "return:err" / "return"
+	to string // "R<n>" or "return:nil" / "return:err" / "return"
 }
 
 func (p *Program) readAutomaton(f *ssa.Function, classes []rune) (map[string]map[rune][]string, []string, string) {
@@ -123,6 +123,14 @@ func commentsRule(c *Ctx, rule string) {
 	if auto == nil {
 		c.Unk(rule, "skipUntilEndComment", f.Pos(), "automaton not extracted: "+why)
 		return
+	}
+	for _, site := range names {
+		for _, cl := range classes {
+			if len(auto[site][cl]) == 0 {
+				c.Unk(rule, "skipUntilEndComment", f.Pos(), "the loop keeps its state in variables, not in distinct read sites: the automaton is not extracted")
+				return
+			}
+		}
 	}
 	// bisimulation with the reference automaton: S0 (initial), S1 (after a star)
 	ref := map[string]map[rune]string{
